@@ -290,6 +290,7 @@ class Exec:
         self.frames = []
         self.entry_scope = {}
         self._lits = {}
+        self._xattrs = {}
 
     # ------------------------------------------------------------ state helpers
     def fresh(self, base, sort=INT):
@@ -789,7 +790,20 @@ class Exec:
         base = self.ev(node.value, fr)
         return self.getattr(base, node.attr, fr, node)
 
+    def opaque_mode(self):
+        cur = getattr(self.reg, "current", None)
+        return cur.attrs.get("opaque_calls") if cur is not None else None
+
+    def opaque_call(self, node, what=""):
+        """a call the contract declares opaque (string building, builders, XML accessors): it may
+        return anything and - in 'mayraise' mode - may raise; nothing it does is relied upon"""
+        if self.opaque_mode() == "mayraise" and self.choose(2) == 1:
+            raise PyExc("OpaqueFailure", node)
+        return OpaqueV("opaque-result:" + what)
+
     def getattr(self, base, attr, fr, node=None):
+        if isinstance(base, OpaqueV) and self.opaque_mode():
+            return OpaqueV(base.what + "." + attr)
         if isinstance(base, PStr) and attr in ("isdigit", "lower", "strip"):
             return BuiltinV("pystr." + attr, recv=base)
         if isinstance(base, DictV) and attr in ("get",):
@@ -808,6 +822,8 @@ class Exec:
                 return FuncV(mi, recv=base)
             if fr.spec:
                 raise Unsupported(f"spec reads unknown field {attr}")
+            if self.opaque_mode():
+                return OpaqueV("attr:" + attr)
             raise Unsupported(f"attribute {attr} of {o.cls.name if o.cls else '?'} in {self.fname}")
         s = self.seq(base)
         if s is not None:
@@ -950,6 +966,8 @@ class Exec:
             return ExcV(f.name)
         if isinstance(f, BuiltinV):
             return self.call_builtin(f, args, kwargs, fr, node)
+        if isinstance(f, OpaqueV) and self.opaque_mode():
+            return self.opaque_call(node, f.what)
         raise Unsupported(f"call of {f!r} in {self.fname}")
 
     def construct(self, ci, args, kwargs, fr, node):
@@ -993,8 +1011,10 @@ class Exec:
             return self.inline_call(fi, env, fr)
         if con is not None and not con.inline and not (self.reg.current is con and con.allow_self_inline):
             return self.reg.apply_contract(self, con, fi, env, fr, node)
-        if self.reg.may_inline(fi):
+        if self.reg.may_inline(fi) and not (self.opaque_mode() and fi.name not in ("__init__", "__len__") and fi.kind != "property"):
             return self.inline_call(fi, env, fr)
+        if self.opaque_mode():
+            return self.opaque_call(node, fi.qualname)
         raise Unsupported(f"call to {fi.qualname} without contract (from {self.fname})")
 
     def inline_call(self, fi, env, fr, depth=[0]):
@@ -1019,6 +1039,17 @@ class Exec:
             # the external codec tables (extracted from CPython and checked at start-up)
             arg = self.as_int(list(env.values())[0])
             return self.reg.E(arg) if fi.name == "CP_E" else self.reg.D(arg)
+        if fi.name == "XBOOL":
+            # get_boolean_attribute(element, name, default): a pure function of its arguments (trusted)
+            vals = list(env.values())
+            el, nm, dflt = vals[0], self.as_pstr(vals[1]), vals[2]
+            key = (el.id if isinstance(el, Ref) else id(el), nm.lit if nm is not None else None, str(dflt))
+            cache = getattr(self, "_xattrs", None)
+            if cache is None:
+                cache = self._xattrs = {}
+            if key not in cache:
+                cache[key] = self.fresh("xbool_" + str(key[1]), BOOL)
+            return cache[key]
         if fi.name in ("PARSEABLE", "INT_OF"):
             # int(str) of CPython is external: its graph is a pair of uninterpreted functions
             a = self.as_pstr(list(env.values())[0])
